@@ -7,7 +7,7 @@ from ..oracles import tensor as T
 NAMES = ["c%d%d" % p for p in T.VOIGT21]
 
 
-def invariant_field(rng, system, nrows, integer=False):
+def invariant_field(rng, system, nrows, integer=False, one_signed_with_zero=False):
     """(nrows, 21) array of tensors exactly on the invariant subspace."""
     B = laue.invariant_basis(system)
     if integer:
@@ -15,6 +15,12 @@ def invariant_field(rng, system, nrows, integer=False):
         field = coef @ B.T
         return numpy.round(field)
     coef = rng.normal(150, 90, size=(nrows, B.shape[1]))
+    if one_signed_with_zero and nrows >= 2:
+        # one independent coefficient keeps one sign along the volumes and is exactly zero at the first or the last one
+        # (a small component that vanishes at one end of the tabulated range)
+        j = int(rng.integers(0, B.shape[1]))
+        ramp = numpy.linspace(0.0, float(rng.uniform(2, 30)), nrows) * float(rng.choice([-1.0, 1.0]))
+        coef[:, j] = ramp if rng.random() < 0.5 else ramp[::-1]
     return coef @ B.T
 
 
